@@ -81,6 +81,18 @@ fn main() {
             }
         }
     }
+    // Re-entrancy probe.  A library that holds a plain lock across a user callback
+    // blocks for ever when that callback calls back into it on the same thread; a
+    // blocked thread cannot be recovered and would hold that lock for the rest of the
+    // process.  So the top-level commands first let a CHILD process make re-entrant
+    // calls; if it does not come back, re-entrant calls are not made in this check
+    // (they run one after the other), and the evidence says so.
+    if matches!(args[1].as_str(), "check" | "replay" | "selftest")
+        && std::env::var_os("MOMSIM_REENTRY").is_none()
+    {
+        let verdict = reentry_probe_child();
+        std::env::set_var("MOMSIM_REENTRY", verdict);
+    }
     let installed = hashkeys::install();
     if hashkeys::SIM_KEYS && !installed {
         eprintln!("HARNESS: could not install the hash-key random source");
@@ -108,6 +120,38 @@ fn main() {
             let total: u64 = args[7].parse().unwrap();
             let out = framework::worker_loop(p, seed, thorough, w, nw, total, None);
             framework::write_json(&args[8], &out).expect("write worker output");
+        }
+        "reentryprobe" => {
+            quiet_panics();
+            ctx::install(usize::MAX, None, ctx::PreemptPlan::default());
+            hashkeys::reset(3);
+            let mut rng = util::SplitMix::new(0x7e);
+            for g in workload::named_graphs().into_iter().take(6) {
+                if let sampler::Built::Ok(s) = sampler::build(&g) {
+                    let s: std::sync::Arc<dyn sampler::Sampler> = std::sync::Arc::from(s);
+                    let env = std::sync::Arc::new(model::fresh_env_pub(&g, s.clone()));
+                    for k in 0..24u64 {
+                        let mk = |rng: &mut util::SplitMix| (workload::gen_point(rng, s.dimension()), workload::gen_edge_data(rng, &g));
+                        let (point, ed) = mk(&mut rng);
+                        let (ipoint, ied) = mk(&mut rng);
+                        let mut st = workload::gen_settings(&mut rng);
+                        st.debug = false;
+                        let op = model::Op::Nested {
+                            point,
+                            ed,
+                            st: st.clone(),
+                            at: [0u64, 3, 17, 60, 200, 900][(k % 6) as usize],
+                            ipoint,
+                            ied,
+                            ist: st,
+                            prec: if k % 2 == 0 { 0 } else { 24 },
+                        };
+                        let mut cs = model::ClientState::new();
+                        let _ = model::exec_op(&[env.clone()], &mut cs, &op, false, u64::MAX);
+                    }
+                }
+            }
+            say!("reentry-ok");
         }
         "check" => {
             let p = find(&args[2]);
@@ -212,6 +256,41 @@ fn main() {
         _ => {
             eprintln!("unknown command");
             std::process::exit(2);
+        }
+    }
+}
+
+/// "yes" if a child process survives re-entrant calls within 30 s, else "no"
+fn reentry_probe_child() -> &'static str {
+    use std::process::{Command, Stdio};
+    let exe = match std::env::current_exe() {
+        Ok(e) => e,
+        Err(_) => return "yes",
+    };
+    let mut child = match Command::new(exe)
+        .arg("reentryprobe")
+        .env("MOMSIM_REENTRY", "yes")
+        .stdin(Stdio::null())
+        .stdout(Stdio::null())
+        .stderr(Stdio::null())
+        .spawn()
+    {
+        Ok(c) => c,
+        Err(_) => return "yes",
+    };
+    let t0 = std::time::Instant::now();
+    loop {
+        match child.try_wait() {
+            Ok(Some(_)) => return "yes",
+            Ok(None) => {
+                if t0.elapsed().as_secs() >= 30 {
+                    let _ = child.kill();
+                    let _ = child.wait();
+                    return "no";
+                }
+                std::thread::sleep(std::time::Duration::from_millis(20));
+            }
+            Err(_) => return "yes",
         }
     }
 }
